@@ -167,3 +167,11 @@ def textarea_witness():
     doc = html5lib.parse("<p><b></p><textarea>x</textarea>", namespaceHTMLElements=False)
     ta = doc.find(".//textarea")
     return ta is not None and len(ta) == 1 and ta[0].tag == "b"
+
+
+def isindex_witness():
+    """known finding: <isindex> is still expanded into form/hr/label/input (removed from the standard in 2016, long
+    before the 1.1 release): the standard now treats it as any other unknown element"""
+    import html5lib
+    doc = html5lib.parse("<isindex>", namespaceHTMLElements=False)
+    return doc.find(".//isindex") is None and doc.find(".//form") is not None
